@@ -72,9 +72,12 @@ CacheEdges ==
 Scr == {<<"ok", 1>>, <<"ok", 3>>, <<"nx", 0>>, <<"nxc", 1>>, <<"spoofid", 1>>}
 QEv(c, sc) == [B("q", 1) EXCEPT !.c = c, !.s = sc[1], !.ttl = sc[2], !.val = IF sc[2] > 0 THEN 1 ELSE 0]
 ResEdges ==
-       {[QEv(c, sc) EXCEPT !.hit = h, !.rc = r, !.aval = v, !.attl = at, !.ups = u, !.stored = st, !.gone = go] :
-            c \in 1..2, sc \in Scr, h \in BOOLEAN, r \in {0, 3}, v \in {0, 1, 7, 8, 9},
-            at \in {0, 40, 60, 100}, u \in {<<>>, <<1>>, <<2>>}, st \in BOOLEAN, go \in {<<>>, <<1>>}}
+       \* answered from the cache: any code, data and TTL, with or without an upstream query
+       {[QEv(c, sc) EXCEPT !.hit = TRUE, !.rc = r, !.aval = v, !.attl = at, !.ups = u, !.stored = st] :
+            c \in 1..2, sc \in Scr, r \in {0, 3}, v \in {0, 1, 7, 8, 9}, at \in {0, 40, 100}, u \in {<<>>, <<1>>}, st \in BOOLEAN}
+       \* answered otherwise: the TTL is not judged
+  \cup {[QEv(c, sc) EXCEPT !.rc = r, !.aval = v, !.attl = 40, !.ups = u, !.stored = st, !.gone = go] :
+            c \in 1..2, sc \in Scr, r \in {0, 3}, v \in {0, 1, 7, 8, 9}, u \in {<<>>, <<1>>, <<2>>}, st \in BOOLEAN, go \in {<<>>, <<1>>}}
   \cup {[QEv(c, sc) EXCEPT !.err = TRUE, !.ups = u, !.stored = st, !.gone = go] :
             c \in 1..2, sc \in Scr, u \in {<<>>, <<1>>, <<2>>}, st \in BOOLEAN, go \in {<<>>, <<1>>}}
   \cup {[B("wall", 0) EXCEPT !.c = 2, !.on = on] : on \in BOOLEAN}
